@@ -84,4 +84,18 @@ META.update({
   "technique": "runtime monitoring: /proc thread-state and CPU-time observer over create/use/drop sequences",
  },
 })
+META.update({
+ "C01": {
+  "text": "Every operation of thousands of multi-thread rounds (2-16 threads, load / get_cached / get_or_insert / contains through AssetCache and its AnyCache view, 1-8 ids x 3 types, common start, fresh hash seed per round, 4-64 shards chosen through CPU affinity, epochs separated by remove/take/clear) is recorded at the call boundary with one logical clock; each key's history is checked: one handle address and one value, presence never flips back (cross-checked by an exhaustive linearizability search against an insert-once register), losers dropped when their call returned, exactly one survivor. Racers are forced past the cache-miss check together by a rendezvous inside the loader. 64 old handles are dereferenced by reader threads during 20 000 unrelated insertions. Native (std locks, parking_lot, SipHash), ASan, TSan and Miri builds.",
+  "design_ref": "DESIGN.md §5 C01, §3.6, §3.8",
+  "note": "Partitioned by key (a map is linearizable iff every key's sub-history is). Interleavings are those the OS / Miri scheduler produced; distinct interleaving hashes are reported.",
+  "technique": "runtime monitoring: recorded concurrent histories + per-key linearizability / identity / ledger oracles, forced races, ASan/TSan/Miri",
+ },
+ "C07": {
+  "text": "Self-checking 4 KiB values (all words equal + checksum + live token) are read by 1-12 threads (short reads, guards held across yields with value/token/reload id pinned, mapped / try_mapped guards, untyped guards downcast, a compound snapshot) against a stream of reloads in enhance_hot_reloading mode; in hot_reload() mode a sampler records (logical time before, reload id, generation, logical time after) of every read and every observed change must overlap the [enter, exit] interval of some hot_reload call, while each caller must read at least its own generation right after return. std locks and parking_lot; TSan/Miri watch the value bytes.",
+  "design_ref": "DESIGN.md §5 C07",
+  "note": "Logical clock = one global atomic counter; no wall-clock verdicts.",
+  "technique": "runtime monitoring: self-checking values + guard-pinned snapshots + interval-overlap checker over sampled reads, TSan/Miri",
+ },
+})
 NOT_BUILT = {}
